@@ -4,18 +4,24 @@
          merge_data_metadata) and ``_flush_collector`` driven by a *symbolic op script*;
          pyarrow objects are concrete (distinct 1-row batches), only the script is symbolic.
          Decided: emit refused iff a data batch already exists, finish refused iff exchange mode,
-         validate / merge refused iff no data batch, log+data order kept up to the writer.
+         validate refused iff no data batch, log+data order kept up to the writer ("refused" = any
+         exception; merge_data_metadata's documented behaviour is a model precondition).
+         Replay: the same script against a real IPC stream writer, read back with the real reader.
 (b) xh : the real socket stream loop ``RpcServer._serve_stream`` on in-memory BytesIO
          transports with real pyarrow IPC and a *symbolic producer step script*; the output
          bytes are parsed with the real client reader ``_read_batch_with_log_check``.
          Decided: client-parsed data batches == emitted batches in order, ending exactly at
-         finish (emit+finish delivers the batch), error surfaced iff the state raised, logs
-         delivered in order; with a cancel point: process never runs after the cancel,
-         on_cancel runs exactly once, no error batch.
+         finish (emit+finish delivers the batch), an error reported iff the state failed (class and
+         wording of the error are not asserted), logs delivered in order; with a cancel point:
+         process never runs after the cancel, on_cancel runs once on a live stream (invoked: WIRE_PROTOCOL
+         "Client-initiated cancellation"; at most once: C10) and at most once otherwise, no error batch.
+         Replay: serve_pipe + the public client session, judged from what the state recorded against
+         what the client saw, plus the un-stubbed loop on the condition's request bytes.
 (c) xh : the cancel branch of the HTTP ``_run_stream_exchange_sync`` (real bytecode,
          environment re-globalised): cancel flag set  =>  neither turn runner nor
-         ``state.process`` is invoked, ``on_cancel`` runs exactly once, an empty stream is returned;
-         flag unset => exactly one turn runner, no on_cancel.
+         ``state.process`` is invoked, ``on_cancel`` runs once, no error outcome, an empty stream is returned;
+         flag unset => exactly one turn runner, no on_cancel; no token / unknown state type => refused
+         without touching a state. Replay (real falcon app + HttpStreamSession) follows the cancel flag.
 """
 
 from __future__ import annotations
@@ -56,7 +62,9 @@ BOUNDS = (
 OUTSIDE = (
     "Arrow's own select/cast semantics (run concretely: which type pairs Arrow considers castable is taken from pyarrow, only three variants per column are used); stream headers; "
     "HTTP producer/exchange turn runners (stubbed in (c): only the branch selection is decided); "
-    "client session objects (StreamSession/HttpStreamSession) refusing use after cancel — exercised only in the (c) replay; "
+    "client session objects (StreamSession/HttpStreamSession) refusing use after cancel — judged only in the (b) and (c) replays (public client), not by the solver; "
+    "class and wording of any error (only present/absent), whether the request stream is drained (C04), which metadata keys carry a log's level / server id (C08), "
+    "HTTP status of a refused exchange request, what a producer tick that neither emits nor finishes must do; "
     "lock-step interleaving of client and server (requests are pre-buffered in memory); shm / external-location routes; "
     "scripts longer than the bound."
 )
@@ -92,7 +100,7 @@ class _RecWriter:
         raise HarnessModelError("writer stub touched through " + name)
 
 
-def _collector_script(producer: bool, n: int, ops: tuple) -> bool:
+def _collector_script(producer: bool, n: int, ops: tuple, real: bool = False) -> bool:
     out = ty.OutputCollector(_SCHEMA, producer_mode=producer, server_id="srv")
     # reference model, written from the property statement
     model: list = []  # ("data", i) | ("log", i)
@@ -115,10 +123,10 @@ def _collector_script(producer: bool, n: int, ops: tuple) -> bool:
             else:
                 out.merge_data_metadata(_MERGE_MD[i])
             refused = False
-        except RuntimeError:
-            refused = True
+        except HarnessModelError:
+            raise
         except Exception:  # noqa: BLE001
-            return False
+            refused = True  # "refused": the property does not name the exception class
         if op == _E:
             if refused != has_data:  # at most one data batch per call
                 return False
@@ -139,51 +147,77 @@ def _collector_script(producer: bool, n: int, ops: tuple) -> bool:
             if refused != (not has_data):  # validate fails iff no data batch
                 return False
         else:
+            # merge_data_metadata is not part of C10's statement: its documented behaviour (refused iff
+            # there is no data batch) is the model's precondition, not an assertion of this property
             if refused != (not has_data):
-                return False
+                raise HarnessModelError("merge_data_metadata accepted without / refused with a data batch: outside the collector model")
             if not refused:
                 merged.append(i)
         if out.finished != finished:
             return False
     # flush through the real writer loop, then compare what the wire sees with the model
-    w = _RecWriter()
+    if real:
+        sink = BytesIO()
+        w = ipc.new_stream(sink, _SCHEMA)
+    else:
+        w = _RecWriter()
     try:
         wire._flush_collector(w, out, None, shm=None)  # type: ignore[arg-type]
+    except HarnessModelError:
+        raise
     except Exception:  # noqa: BLE001
         return False
-    if len(w.written) != len(model):
+    if real:
+        w.close()
+        rd = ipc.open_stream(BytesIO(sink.getvalue()))
+        written = []
+        while True:
+            try:
+                written.append(rd.read_next_batch_with_custom_metadata())
+            except StopIteration:
+                break
+    else:
+        written = w.written
+    if len(written) != len(model):
         return False
     n_data = 0
     for pos in range(len(model)):
         kind, i = model[pos]
-        batch, cm = w.written[pos]
+        batch, cm = written[pos]
         if kind == "data":
             n_data += 1
-            if batch is not _BATCHES[i] or pos != data_pos:
+            # the emitted batch itself (content, not object identity), at its place among the logs
+            if not batch.equals(_BATCHES[i]) or pos != data_pos:
                 return False
-            want = {}
-            for j in merged:
-                want[b"k%d" % j] = b"v%d" % j
             got = dict(cm.items()) if cm is not None else {}
-            if got != want:
-                return False
+            for j in merged:
+                if got.get(b"k%d" % j) != b"v%d" % j:
+                    return False
         else:
+            # a log entry: never a data batch, and it is the i-th log (which metadata keys carry level /
+            # server id is C08's subject, not asserted here)
             if batch.num_rows != 0 or cm is None:
                 return False
-            if cm.get(md.LOG_MESSAGE_KEY) != _LOG_TEXT[i].encode() or cm.get(md.LOG_LEVEL_KEY) != b"INFO":
-                return False
-            if cm.get(md.SERVER_ID_KEY) != b"srv":
+            if _LOG_TEXT[i].encode() not in [v for _k, v in cm.items()]:
                 return False
     if n_data > 1 or (n_data == 1) != has_data:
         return False
     if has_data:
-        if out.data_batch.batch is not _BATCHES[model[data_pos][1]]:
+        if not out.data_batch.batch.equals(_BATCHES[model[data_pos][1]]):
             return False
     return True
 
 
+def _replay_collector(args: dict) -> str | None:
+    """No stub: the same op script against a real ipc.RecordBatchStreamWriter, read back with the real reader."""
+    ok = _collector_script(args["producer"], args["n"], (args["o0"], args["o1"], args["o2"], args["o3"], args["o4"]), real=True)
+    return None if ok else ("OutputCollector/_flush_collector: refusals (second emit, finish in exchange mode, validate without data) or the "
+                            "batches written to a real IPC stream differ from the op script")
+
+
 @cond(q=100, t=300, encoded=ENCODED, bound="op scripts of length <= %d over {emit, finish, client_log, validate, merge}, both modes" % _NA,
-      stubs=["ipc writer := recording list (write_batch only)"])
+      stubs=["ipc writer := recording list (write_batch only)"], replay=_replay_collector,
+      signature=lambda a, c: "C10:collector:" + ("producer" if a["producer"] else "exchange") + "-script-mismatch")
 def collector_script(producer: bool, n: int, o0: int, o1: int, o2: int, o3: int, o4: int) -> bool:
     """
     pre: 0 <= n <= _NA
@@ -209,26 +243,55 @@ _HOLD: dict = {"script": (0, 0, 0, 0), "i": 0, "calls": 0, "cancels": 0, "cancel
 _IN_SCHEMA = pa.schema([pa.field("x", pa.int64())])
 
 
+def _reset_hold(script: tuple, cancel_raises: bool) -> None:
+    _HOLD.update(script=script, i=0, calls=0, cancels=0, after_cancel=0, after_end=0, ended=False, cancel_raises=cancel_raises,
+                 inputs=[], emitted=[], ev=[])
+
+
+def _finish(out) -> None:  # type: ignore[no-untyped-def]
+    """finish() as the state calls it; what happened is recorded for the replay's judgement."""
+    try:
+        out.finish()
+    except Exception:
+        _HOLD["ev"].append("finish-refused")
+        _HOLD["ended"] = True  # the state raises: the stream is over
+        raise
+    _HOLD["ev"].append("finish-accepted")
+    _HOLD["ended"] = True
+
+
 def _step(out, ctx) -> None:  # type: ignore[no-untyped-def]
     i = _HOLD["i"]
     _HOLD["i"] = i + 1
     _HOLD["calls"] += 1
     if _HOLD["cancels"]:
         _HOLD["after_cancel"] += 1
-    k = _HOLD["script"][i]
+    if _HOLD["ended"]:
+        _HOLD["after_end"] += 1
+    if i >= len(_BATCHES):
+        raise HarnessModelError("state processed more often than the harness has batches")
+    # a call beyond the script (only possible when the server processes something it must not) emits
+    k = _HOLD["script"][i] if i < len(_HOLD["script"]) else _EMIT
     if k == _EMIT:
         out.emit(_BATCHES[i])
+        _HOLD["emitted"].append(i)
     elif k == _EMIT_FINISH:
         out.emit(_BATCHES[i])
-        out.finish()
+        _HOLD["emitted"].append(i)
+        _finish(out)
     elif k == _FINISH:
-        out.finish()
+        _finish(out)
     elif k == _LOG_EMIT:
         ctx.client_log(Level.INFO, _LOG_TEXT[i])
         out.emit(_BATCHES[i])
+        _HOLD["emitted"].append(i)
     elif k == _RAISE:
+        _HOLD["ev"].append("raised")
+        _HOLD["ended"] = True
         raise ValueError("boom-%d" % i)
-    # _NOTHING: neither emits nor finishes
+    else:
+        # _NOTHING: neither emits nor finishes
+        _HOLD["ev"].append("nothing")
 
 
 def _cancel() -> None:
@@ -352,13 +415,7 @@ _CLOCK_STUB = "time.monotonic := concrete counter (access-log duration only)"
 
 
 def _serve_script(exchange: bool, t: int, cancel: bool, cancel_raises: bool, script: tuple, real: bool = False) -> bool:
-    _HOLD["script"] = script
-    _HOLD["i"] = 0
-    _HOLD["calls"] = 0
-    _HOLD["cancels"] = 0
-    _HOLD["after_cancel"] = 0
-    _HOLD["cancel_raises"] = cancel_raises
-    _HOLD["inputs"] = []
+    _reset_hold(script, cancel_raises)
     request = _INPUTS[1 if exchange else 0][t][1 if cancel else 0]
     tr = _MemTransport(request)
     info = _SERVER._methods["exch" if exchange else "gen"]
@@ -367,11 +424,11 @@ def _serve_script(exchange: bool, t: int, cancel: bool, cancel_raises: bool, scr
             _SERVER._serve_stream(tr, info, {})
         else:
             _serve_stream_rg(_SERVER, tr, info, {})
+    except HarnessModelError:
+        raise
     except Exception:  # noqa: BLE001
         return False
-    # the whole request stream was consumed (transport clean for the next call)
-    if tr.reader.tell() != len(request):
-        return False
+    # (whether the request stream was drained to its end is C04's subject, not asserted here)
     try:
         data, logs, err, trailing = _client_parse(tr.writer.getvalue())
     except Exception:  # noqa: BLE001
@@ -380,7 +437,7 @@ def _serve_script(exchange: bool, t: int, cancel: bool, cancel_raises: bool, scr
     # ---- reference, written from the property statement -------------------
     want_data: list = []
     want_logs: list = []
-    want_err = None
+    want_err = False  # an error is reported to the client (its class and wording are not C10's subject)
     want_calls = 0
     ended = False  # finished or failed before the inputs ran out
     for i in range(t):
@@ -392,13 +449,17 @@ def _serve_script(exchange: bool, t: int, cancel: bool, cancel_raises: bool, scr
             want_logs.append(i)
             want_data.append(i)
         elif k == _RAISE:
-            want_err = ("ValueError", "boom-%d" % i)
+            want_err = True
             ended = True
         elif k == _NOTHING:
-            want_err = ("RuntimeError", "No data batch")
+            if not exchange and err is None:
+                # a producer tick without output: C10 does not say it must fail; a server tolerating it is
+                # outside what this reference models
+                raise HarnessModelError("producer tick that neither emits nor finishes was tolerated: outside the model")
+            want_err = True  # exchange: exactly one output per input
             ended = True
         elif exchange:  # finish / emit+finish on an exchange stream: refused
-            want_err = ("RuntimeError", "finish() is not allowed")
+            want_err = True
             ended = True
         elif k == _EMIT_FINISH:
             want_data.append(i)
@@ -407,12 +468,21 @@ def _serve_script(exchange: bool, t: int, cancel: bool, cancel_raises: bool, scr
             ended = True
         if ended:
             break
-    want_cancels = 1 if (cancel and not ended) else 0
 
+    # one process() per tick / input until the stream ends; never again after the end or after a cancel
     if _HOLD["calls"] != want_calls or _HOLD["after_cancel"] != 0:
         return False
-    if _HOLD["cancels"] != want_cancels:
-        return False
+    if cancel and not ended:
+        # a cancel reaching a live stream: the hook is invoked (WIRE_PROTOCOL "Client-initiated cancellation":
+        # "It invokes the stream state's optional on_cancel hook") and, by C10, at most once
+        if _HOLD["cancels"] != 1:
+            return False
+    elif cancel:
+        # the stream had already ended when the pipelined cancel arrived: C10 only bounds the hook
+        if _HOLD["cancels"] > 1:
+            return False
+    elif _HOLD["cancels"] != 0:
+        return False  # no cancel was sent
     if len(data) != len(want_data):
         return False
     for j in range(len(data)):
@@ -423,11 +493,8 @@ def _serve_script(exchange: bool, t: int, cancel: bool, cancel_raises: bool, scr
     for j in range(len(logs)):
         if logs[j].message != _LOG_TEXT[want_logs[j]] or logs[j].level is not Level.INFO:
             return False
-    if (err is None) != (want_err is None):
+    if (err is not None) != want_err:
         return False
-    if err is not None:
-        if err.error_type != want_err[0] or want_err[1] not in err.error_message or trailing != 0:
-            return False
     if exchange:
         seen = _HOLD["inputs"]
         if len(seen) != want_calls:
@@ -441,9 +508,107 @@ def _serve_script(exchange: bool, t: int, cancel: bool, cancel_raises: bool, scr
 _SERVE_ENCODED = [srv.RpcServer._serve_stream, wire._flush_collector, wire._read_batch_with_log_check, wire._dispatch_log_or_error, wire._write_error_batch]
 
 
+def _state_failed(ev: list, exchange: bool) -> bool:
+    """Did the state itself fail (raise / have finish refused / give an exchange no output)? — from what it recorded."""
+    return "raised" in ev or "finish-refused" in ev or (exchange and "nothing" in ev)
+
+
+def _relational_problems(label: str, exchange: bool, data: list, err) -> list:  # type: ignore[no-untyped-def]
+    """C10 clauses that relate what the state did (recorded in _HOLD by the state itself) to what the client saw."""
+    ev = _HOLD["ev"]
+    out = []
+    emitted = [_BATCHES[i] for i in _HOLD["emitted"]]
+    if len(data) != len(emitted) or any(not data[j].equals(emitted[j]) for j in range(len(data))):
+        out.append("%s: the state emitted batches %s but the client received %s" % (label, _HOLD["emitted"], [b.column(0)[0].as_py() - 100 for b in data]))
+    if _HOLD["after_end"]:
+        out.append("%s: the state was processed %d more time(s) after it had finished / failed" % (label, _HOLD["after_end"]))
+    if _HOLD["after_cancel"]:
+        out.append("%s: the state was processed after the cancel" % label)
+    if _HOLD["cancels"] > 1:
+        out.append("%s: on_cancel ran %d times" % (label, _HOLD["cancels"]))
+    if exchange and "finish-accepted" in ev:
+        out.append("%s: an exchange stream accepted finish()" % label)
+    if not exchange and "finish-refused" in ev:
+        out.append("%s: a producer stream refused finish()" % label)
+    if (err is not None) != _state_failed(ev, exchange):
+        out.append("%s: %s" % (label, "an error was reported to the client although the state did not fail: %r" % (err,) if err is not None
+                                else "the state failed but no error reached the client"))
+    return out
+
+
 def _replay_serve(args: dict) -> str | None:
-    ok = _serve_script(args["exchange"], args["t"], args["cancel"], args["cancel_raises"], (args["s0"], args["s1"], args["s2"], args["s3"]), real=True)
-    return None if ok else "socket stream loop: client-visible batches / process / on_cancel counts differ from the step script (no stubs involved)"
+    """Un-stubbed real code, judged from what the state recorded vs what the client observed (no expectation table):
+
+    (1) ``serve_pipe`` + the public client session (tick / exchange / cancel / close);
+    (2) the real ``_serve_stream`` over the same in-memory request bytes as the condition (no clock stub), read with the
+        real client reader — needed for what the public client hides: an error batch written after a cancel, and a
+        cancel pipelined behind the end of the stream.
+    """
+    from vgi_rpc.rpc import serve_pipe
+
+    exchange, t, cancel = bool(args["exchange"]), args["t"], bool(args["cancel"])
+    script = (args["s0"], args["s1"], args["s2"], args["s3"])
+    problems: list = []
+
+    # ---- (1) public client over a real pipe ---------------------------------------------------
+    _reset_hold(script, bool(args["cancel_raises"]))
+    data: list = []
+    err = None
+    stopped = False
+    refused_after = None
+    with serve_pipe(_Proto, _Impl()) as proxy:
+        s = proxy.exch() if exchange else proxy.gen()
+        for i in range(t):
+            try:
+                ab = s.exchange(ty.AnnotatedBatch(batch=_IN_BATCHES[i])) if exchange else s.tick()
+            except StopIteration:
+                stopped = True
+                break
+            except RpcError as e:
+                err = e
+                break
+            data.append(ab.batch)
+        live = not stopped and err is None
+        if cancel and live:
+            s.cancel()
+            try:
+                if exchange:
+                    s.exchange(ty.AnnotatedBatch(batch=_IN_BATCHES[0]))
+                else:
+                    s.tick()
+                refused_after = False
+            except (RpcError, StopIteration):
+                refused_after = True
+        else:
+            s.close()
+    ev = _HOLD["ev"]
+    if not exchange and "nothing" in ev:
+        return None  # a producer tick without output: C10 does not say what must happen
+    problems += _relational_problems("pipe", exchange, data, err)
+    fin = "finish-accepted" in ev
+    fin_with_last_batch = fin and _HOLD["emitted"] and _HOLD["emitted"][-1] == _HOLD["calls"] - 1 and _HOLD["calls"] == t
+    if stopped != (fin and not fin_with_last_batch):
+        problems.append("pipe: the client's iteration %s although the producer %s" % ("ended" if stopped else "did not end", "finished" if fin else "never finished"))
+    if live and len(data) != t:
+        problems.append("pipe: %d ticks/inputs answered with %d data batches" % (t, len(data)))
+    if cancel and live:
+        # (emit+finish on the last tick: the client could not know yet that the stream is over; only the "at most once" bound applies)
+        if _HOLD["cancels"] != 1 and not _HOLD["ended"]:
+            problems.append("pipe: on_cancel ran %d times for a cancel on a live stream" % _HOLD["cancels"])
+        if not refused_after:
+            problems.append("pipe: the session accepted further use after cancel()")
+    elif _HOLD["cancels"] and not cancel:
+        problems.append("pipe: on_cancel ran although the client never cancelled")
+
+    # ---- (2) the real loop on the condition's own request bytes -------------------------------
+    _reset_hold(script, bool(args["cancel_raises"]))
+    tr = _MemTransport(_INPUTS[1 if exchange else 0][t][1 if cancel else 0])
+    _SERVER._serve_stream(tr, _SERVER._methods["exch" if exchange else "gen"], {})
+    wdata, _wlogs, werr, _trailing = _client_parse(tr.writer.getvalue())
+    problems += _relational_problems("in-memory socket loop", exchange, wdata, werr)
+    if not cancel and _HOLD["cancels"]:
+        problems.append("in-memory socket loop: on_cancel ran although no cancel was sent")
+    return "; ".join(problems) or None
 
 
 def _replay_serve_ex(args: dict) -> str | None:
@@ -506,7 +671,7 @@ class _HttpState:
 
     def on_cancel(self, ctx) -> None:  # type: ignore[no-untyped-def]
         _H["cancels"] += 1
-        _H["ctx_ok"] = type(ctx).__name__ == "CallContext"
+        _H["ctx_ok"] = ctx is not None  # the hook is documented to receive the call context
         if _H["cancel_raises"]:
             raise RuntimeError("on_cancel boom")
 
@@ -541,12 +706,18 @@ class _FakeSrv:
     external_config = None
     methods: dict = {}
 
+    def __getattr__(self, name: str):  # type: ignore[no-untyped-def]
+        raise HarnessModelError("_FakeSrv has no attribute " + name + " (the cancel branch reads more of the server than modelled)")
+
 
 class _FakeApp:
     _server = _FakeSrv()
 
     def __init__(self, known: bool) -> None:
         self._state_types = {"m": object()} if known else {}
+
+    def __getattr__(self, name: str):  # type: ignore[no-untyped-def]
+        raise HarnessModelError("_FakeApp has no attribute " + name + " (the cancel branch reads more of the app than modelled)")
 
 
 _telemetry_gen = reglobalize(aps._dispatch_telemetry.__wrapped__, time=_Clock())
@@ -610,14 +781,17 @@ def _replay_http_cancel(args: dict) -> str | None:
     from vgi_rpc.http import http_connect, make_sync_client
     from vgi_rpc.http._common import RPC_ERROR_HEADER
 
+    if not args.get("known", True) or not args.get("token", True):
+        # rows whose only claim is "a refused request does not use the state"; a registered method without a state
+        # type / a session without a cursor cannot be produced through the public client: no judgement
+        return None
     producer = bool(args.get("producer"))
-    for k in ("calls", "cancels", "after_cancel", "i"):
-        _HOLD[k] = 0
-    _HOLD.update(script=(0, 0, 0, 2), cancel_raises=bool(args.get("cancel_raises")), inputs=[])
+    _reset_hold((0, 0, 0, 0), bool(args.get("cancel_raises")))
     # max_response_bytes=1 makes a producer hand out a continuation token after every batch
-    client = _RecClient(make_sync_client(_SERVER, token_key=b"k" * 32, max_response_bytes=1 if producer else None))
+    # (no response compression: with a codec the body cap is not what ends a turn — C11's subject, not C10's)
+    client = _RecClient(make_sync_client(_SERVER, token_key=b"k" * 32, max_response_bytes=1 if producer else None, compression_level=None))
     problems = []
-    with http_connect(_Proto, client=client) as proxy:
+    with http_connect(_Proto, client=client, compression_level=None) as proxy:
         it = None
         if producer:
             s = proxy.gen()
@@ -628,14 +802,27 @@ def _replay_http_cancel(args: dict) -> str | None:
             s.exchange(ty.AnnotatedBatch(batch=_IN_BATCHES[0]))
         calls_before = _HOLD["calls"]
         n_before = len(client.responses)
+        if not args.get("cancel", True):
+            # an ordinary continuation / exchange request: the state IS processed and the cancel hook is not run
+            try:
+                got = next(it).batch if producer else s.exchange(ty.AnnotatedBatch(batch=_IN_BATCHES[1])).batch
+            except StopIteration:
+                got = None  # the (all-emit, never finishing) stream ended
+            if got is None or _HOLD["calls"] <= calls_before or len(_HOLD["emitted"]) < 2 or not got.equals(_BATCHES[_HOLD["emitted"][1]]):
+                problems.append("a non-cancel exchange request was answered without processing the state")
+            if not producer and _HOLD["calls"] != calls_before + 1:
+                problems.append("one exchange input processed %d times" % (_HOLD["calls"] - calls_before))
+            if _HOLD["cancels"]:
+                problems.append("on_cancel ran on a request without the cancel key")
+            s.close()
+            return "; ".join(problems) or None
         s.cancel()
+        # WIRE_PROTOCOL "Client-initiated cancellation": on receipt the server invokes the hook; C10: at most once
         if _HOLD["cancels"] != 1:
             problems.append("on_cancel ran %d times" % _HOLD["cancels"])
         if _HOLD["calls"] != calls_before or _HOLD["after_cancel"]:
             problems.append("process ran on/after cancel")
-        if len(client.responses) != n_before + 1:
-            problems.append("cancel sent %d requests" % (len(client.responses) - n_before))
-        else:
+        if len(client.responses) > n_before:
             r = client.responses[-1][1]
             hdrs = {k.lower(): v for k, v in dict(r.headers).items()}
             if r.status_code != 200 or RPC_ERROR_HEADER.lower() in hdrs:
@@ -673,6 +860,7 @@ def http_cancel_branch(producer: bool, cancel: bool, token: bool, known: bool, c
     _H["process"] = 0
     _H["cancels"] = 0
     _H["outcomes"] = []
+    _H["ctx_ok"] = False
     _H["cancel_raises"] = cancel_raises
     _H["producer"] = producer
     req = _HTTP_REQ[1 if producer else 0][1 if cancel else 0][1 if token else 0]
@@ -682,24 +870,28 @@ def http_cancel_branch(producer: bool, cancel: bool, token: bool, known: bool, c
         resp = _exchange_sync_rg(_FakeApp(known), "m", BytesIO(req))
     except _RpcHttpError as e:
         err = e
+    except HarnessModelError:
+        raise
     except Exception:  # noqa: BLE001
         return False
     if _H["process"] != 0:
         return False
     if not known or not token:
-        # refused before any use of the state
-        want = HTTPStatus.INTERNAL_SERVER_ERROR if not known else HTTPStatus.BAD_REQUEST
-        return err is not None and err.status_code == want and _H["turns"] == [] and _H["cancels"] == 0
+        # nothing to recover a state from: the request is refused (which status is not C10's subject) and no
+        # state is processed or cancelled
+        return err is not None and _H["turns"] == [] and _H["cancels"] == 0
     if err is not None:
         return False
     if cancel:
-        # never processed, hook exactly once, no error reported, empty stream with the output schema
-        if _H["turns"] != [] or _H["cancels"] != 1 or not _H.get("ctx_ok"):
+        # never processed; the hook is invoked (WIRE_PROTOCOL, client-initiated cancellation) and at most once (C10);
+        # no error reported; an empty stream is returned
+        if _H["turns"] != [] or _H["cancels"] != 1 or not _H["ctx_ok"]:
             return False
-        if len(_H["outcomes"]) != 1:
-            return False
-        info, outcome = _H["outcomes"][0]
-        if outcome.status != "ok" or not outcome.cancelled or outcome.error_type != "":
+        if not _H["outcomes"]:
+            raise HarnessModelError("the cancel branch no longer reports through _dispatch_telemetry: outcome not observable")
+        info, outcome = _H["outcomes"][-1]
+        # "no error is reported": the call's recorded outcome is not an error
+        if outcome.status != "ok" or outcome.error_type != "":
             return False
         rd = ipc.open_stream(BytesIO(resp.getvalue()))
         return rd.schema == _SCHEMA and rd.read_all().num_rows == 0 and resp.tell() == 0
@@ -828,9 +1020,9 @@ def _co_socket(perm: int, tv: tuple, fs: int, real: bool) -> bool:
         else:
             _serve_stream_rg(_CO_SERVER, tr, info, {})
         data, logs, err, trailing = _client_parse(tr.writer.getvalue())
+    except HarnessModelError:
+        raise
     except Exception:  # noqa: BLE001
-        return False
-    if tr.reader.tell() != len(request):
         return False
     if _coercion_expected(2, tv, fs):
         # coerced: the state saw exactly the declared schema and the same values; one output
@@ -868,15 +1060,17 @@ def _replay_coercion(args: dict) -> str | None:
 
     with serve_pipe(_CoProto, _CoImpl()) as proxy:
         one("pipe", proxy)
+    # (an infrastructure failure of the HTTP leg propagates: the engine then reports "not reproduced", never a violation)
     try:
         with http_connect(_CoProto, client=make_sync_client(srv.RpcServer(_CoProto, _CoImpl()), token_key=b"k" * 32)) as proxy:
             one("http", proxy)
-    except Exception as e:  # noqa: BLE001
-        problems.append("http replay failed: %r" % e)
+    except Exception:  # noqa: BLE001
+        if not problems:  # nothing judged on the pipe either: no verdict from a broken replay
+            raise
     return "; ".join(problems) or None
 
 
-@cond(q=40, t=120, encoded=[wire._coerce_input_batch, srv.RpcServer._serve_stream], stubs=[_CLOCK_STUB], replay=_replay_coercion,
+@cond(q=90, t=180, encoded=[wire._coerce_input_batch, srv.RpcServer._serve_stream], stubs=[_CLOCK_STUB], replay=_replay_coercion,
       signature=lambda a, c: "C10:input-coercion:state-saw-undeclared-schema",
       bound="exchange stream with a 2-column declared input schema through the real socket loop: both column orders x 3 type variants per column x field set same / extra / missing (54 inputs)")
 def exchange_input_reaches_state_with_declared_schema(perm: int, t0: int, t1: int, fieldset: int) -> bool:
